@@ -245,6 +245,8 @@ class FnDirective:
         self.head = ('', line)
         self.inserts = []  # (where, literal, text, line)
         self.closures = []  # (literal, ret, text, line)
+        self.nested = {}    # name -> FnDirective (contract of a fn nested in the body)
+        self.parent_dir = None
 
 
 def parse_unit(path):
@@ -308,6 +310,15 @@ def parse_unit(path):
                 nodes.append(('take_types', words[1], exc, ln_no, topts))
             elif cmd == 'fn':
                 cur_fn = FnDirective(words[1], words[2], words[3:], ln_no)
+                section = None
+            elif cmd == 'nested':
+                sub = FnDirective(cur_fn.file, words[1], [], ln_no)
+                sub.parent_dir = cur_fn
+                cur_fn.nested[words[1]] = sub
+                cur_fn = sub
+                section = None
+            elif cmd == 'endnested':
+                cur_fn = cur_fn.parent_dir
                 section = None
             elif cmd == 'end':
                 nodes.append(('fn', cur_fn))
@@ -494,6 +505,17 @@ def render_fn(sf, item, d, drops, em, canary, take_opts=()):
             else:
                 splices[le + 1] = (text, uline)
     if d:
+        for nname, nd in d.nested.items():
+            m = re.search(r'\bfn\s+' + re.escape(nname) + r'\b', src[body_open + 1:body_close])
+            if not m or not mask[body_open + 1 + m.start()]:
+                raise LostAnchor('%s: nested fn %s not found' % (d.path, nname))
+            f0 = body_open + 1 + m.start()
+            b0 = R.find_at_depth0(src, mask, f0, body_close, '{', track='([')
+            nsig = src[f0:b0]
+            if nd.ret:
+                nsig = name_return(nsig, nd.ret)
+            new = ''.join(a + '\n' for a in nd.attrs) + nsig.rstrip() + '\n' + nd.spec[0] + '\n{\n' + nd.head[0] + '\n'
+            edits[f0] = (b0 + 1, new)
         for (lit, ret, text, uline) in d.closures:
             k = src.find(lit, body_open + 1, body_close)
             if k < 0 or src[k] != '|' and not src.startswith('move', k):
@@ -537,7 +559,13 @@ def render_fn(sf, item, d, drops, em, canary, take_opts=()):
             cur.append(inline[i])
         if i in edits:
             e, text = edits[i]
-            cur.append(text)
+            if text.count('\n') != src[i:e].count('\n'):
+                # replacement changes the line count (nested-fn contract): emit it as its own block
+                flush_seg(i)
+                em.emit(text, 'unit', d.line if d else 0)
+                seg_start = e
+            else:
+                cur.append(text)
             i = e
             continue
         cur.append(src[i])
